@@ -374,8 +374,14 @@ def selection_sequences(rec):
         def mk():
             return real.CovariatePopulationModel(real.GaussianModel(n_dim=2, centered=False), real.LinearCovariateModel(n_cov=2))
         m, f = mk(), mk()
+        m.set_n_ids(3)
         for k_ in case:
             m.set_population_parameters(sels[k_])
+            if len(case) == 2 or k_ != case[0]:
+                # the model is used between the selections (value and sensitivities): that leaves nothing behind either
+                n_ = m.n_parameters()
+                m.compute_log_likelihood(0.4 + 0.05 * np.arange(n_), 0.1 * np.arange(6).reshape(3, 2), covariates=0.3 * np.ones((3, 2)))
+                m.compute_sensitivities(0.4 + 0.05 * np.arange(n_), 0.1 * np.arange(6).reshape(3, 2), covariates=0.3 * np.ones((3, 2)), dlogp_dpsi=np.ones((3, 2)))
         f.set_population_parameters(sels[case[-1]])
         m.set_n_ids(3)
         f.set_n_ids(3)
